@@ -1,64 +1,195 @@
 (* Model of how the built-in generators produce an output file (textx/generators.py gen_file,
-   textx/export.py metamodel_export / model_export): a two-name file system (the target and
-   the temporary name), the write protocol translated into Gen/SrcFs.v, and an injected
-   failure at any point. *)
-From TxV Require Import Core.Base Gen.SrcFs.
+   textx/export.py metamodel_export / model_export / _write_atomically).
 
-(* file content = the chunks written so far; a failing write may leave part of its chunk *)
+   * a two-name file system (the target and the temporary name) plus the file object that is
+     open for writing: the name its data goes to (it follows a rename, it is lost after an
+     unlink) and the data that was written by the generator but not yet handed to the
+     operating system (io.TextIOWrapper / io.BufferedWriter);
+   * the write protocol as a small program translated from the source into Gen/SrcFs.v
+     (`protocol`): open / the generator's writes / implicit close at the end of `with` /
+     os.replace / os.remove in an exception handler, in the order and nesting of the source;
+   * an arbitrary buffering policy: for every write call of the generator a `step` says whether
+     it only buffers, or makes a low-level write of everything buffered, or makes a low-level
+     write and keeps data buffered.  close() flushes what is left;
+   * an injected failure at any point: open, any low-level write (once or persistently = disk
+     full; with or without part of the data reaching the file) including the ones made by the
+     flush inside close(), close itself, os.replace. *)
+From TxV Require Import Core.Base Model.FsDefs Gen.SrcFs.
+
+(* file content = the chunks that reached the file; a failing low-level write may leave part of a chunk *)
 Inductive piece := Chunk (i : nat) | PartOf (i : nat).
 Record fs := { target : option (list piece); temp : option (list piece) }.
+
+(* where the data of the open file object goes *)
+Inductive loc := AtTemp | AtTarget | Unlinked.
+Record handle := { h_loc : loc; pending : list nat }.
+Record state := { disk : fs; hnd : option handle; ev : nat (* low-level write events so far *) }.
+
+(* what one write call of the generator does below the text layer *)
+Inductive step :=
+| Buf          (* the data stays in the buffer *)
+| FlushAll     (* a low-level write; nothing stays buffered *)
+| FlushKeep.   (* a low-level write of the older data; this call's data stays buffered *)
 
 (* where the injected failure strikes *)
 Inductive failure :=
 | NoFailure
-| AtOpen                      (* open() raises: nothing is created *)
-| AtWrite (k : nat) (partial : bool)   (* the k-th write raises, possibly after writing part of its data *)
-| AtClose                     (* flush/close raises *)
-| AtReplace.                  (* os.replace raises *)
+| AtOpen                       (* open() raises: nothing is created *)
+| AtFlush (e : nat) (persistent partial : bool)
+     (* the e-th low-level write event raises (and every later one if persistent), possibly after
+        part of its data reached the file *)
+| AtClose                      (* close() raises after its flush *)
+| AtReplace.                   (* os.replace raises *)
 
-Definition set_open (f : fs) (c : option (list piece)) : fs :=
-  if writes_to_temp then {| target := target f; temp := c |} else {| target := c; temp := temp f |}.
-Definition get_open (f : fs) : option (list piece) := if writes_to_temp then temp f else target f.
+Definition fails (fl : failure) (n : nat) : bool :=
+  match fl with AtFlush e pers _ => if pers then Nat.leb e n else Nat.eqb e n | _ => false end.
+Definition leaves_part (fl : failure) : bool :=
+  match fl with AtFlush _ _ p => p | _ => false end.
 
-(* write chunks i, i+1, ... ; returns the content and whether an exception was raised *)
-Fixpoint write_all (chunks : list nat) (idx : nat) (fl : failure) (acc : list piece) : list piece * bool :=
+Definition append_at (l : loc) (d : list piece) (f : fs) : fs :=
+  match l with
+  | AtTemp => match temp f with Some c => {| target := target f; temp := Some (c ++ d) |} | None => f end
+  | AtTarget => match target f with Some c => {| target := Some (c ++ d); temp := temp f |} | None => f end
+  | Unlinked => f
+  end.
+
+(* the file system, the open file object and the event counter while the file is open *)
+Record ostate := { o_disk : fs; o_h : handle; o_ev : nat }.
+
+(* one low-level write event of the open file: `towrite` goes to the file, `keep` stays buffered *)
+Definition raw_event (fl : failure) (o : ostate) (towrite keep : list nat) : ostate * bool :=
+  let l := h_loc (o_h o) in
+  if fails fl (o_ev o) then
+    ({| o_disk := if leaves_part fl then append_at l (map PartOf (firstn 1 (towrite ++ keep))) (o_disk o) else o_disk o;
+        o_h := {| h_loc := l; pending := towrite ++ keep |};
+        o_ev := S (o_ev o) |}, true)
+  else
+    ({| o_disk := append_at l (map Chunk towrite) (o_disk o);
+        o_h := {| h_loc := l; pending := keep |};
+        o_ev := S (o_ev o) |}, false).
+
+Definition buffer (c : nat) (o : ostate) : ostate :=
+  {| o_disk := o_disk o; o_h := {| h_loc := h_loc (o_h o); pending := pending (o_h o) ++ [c] |}; o_ev := o_ev o |}.
+
+(* the generator's write calls *)
+Fixpoint write_loop (chunks : list nat) (sched : list step) (fl : failure) (o : ostate) : ostate * bool :=
   match chunks with
-  | [] => (acc, false)
+  | [] => (o, false)
   | c :: r =>
-      match fl with
-      | AtWrite k partial =>
-          if Nat.eqb k idx then ((if partial then acc ++ [PartOf c] else acc), true)
-          else write_all r (S idx) fl (acc ++ [Chunk c])
-      | _ => write_all r (S idx) fl (acc ++ [Chunk c])
+      match hd Buf sched with
+      | Buf => write_loop r (tl sched) fl (buffer c o)
+      | FlushAll =>
+          let '(o1, raised) := raw_event fl o (pending (o_h o) ++ [c]) [] in
+          if raised then (o1, true) else write_loop r (tl sched) fl o1
+      | FlushKeep =>
+          let '(o1, raised) := raw_event fl o (pending (o_h o)) [c] in
+          if raised then (o1, true) else write_loop r (tl sched) fl o1
       end
   end.
 
-Definition on_error (f : fs) : fs :=
-  if (writes_to_temp && removes_temp_on_error)%bool then {| target := target f; temp := None |} else f.
+Definition opened (st : state) (h : handle) : ostate := {| o_disk := disk st; o_h := h; o_ev := ev st |}.
+Definition still_open (o : ostate) : state := {| disk := o_disk o; hnd := Some (o_h o); ev := o_ev o |}.
 
-(* one run of an exporter; returns the file system and whether it raised *)
-Definition export (f : fs) (chunks : list nat) (fl : failure) : fs * bool :=
-  match fl with
-  | AtOpen => (f, true)
-  | _ =>
-      let '(content, raised) := write_all chunks 0 fl [] in
-      let f1 := set_open f (Some content) in
-      if raised then (on_error f1, true)
-      else match fl with
-           | AtClose => (on_error f1, true)
-           | _ =>
-               if (writes_to_temp && replace_after_close)%bool then
-                 match fl with
-                 | AtReplace => (on_error f1, true)
-                 | _ => ({| target := temp f1; temp := None |}, false)
-                 end
-               else (f1, false)
-           end
+(* close(): flush what is buffered (a low-level write only if there is something), then the file
+   object is gone whether or not the flush worked *)
+Definition close (fl : failure) (st : state) : state * bool :=
+  match hnd st with
+  | None => (st, false)
+  | Some h =>
+      let '(o1, raised) := match pending h with [] => (opened st h, false) | _ => raw_event fl (opened st h) (pending h) [] end in
+      ({| disk := o_disk o1; hnd := None; ev := o_ev o1 |},
+       (raised || match fl with AtClose => true | _ => false end)%bool)
   end.
 
+Definition open_file (st : state) : state :=
+  {| disk := if writes_to_temp then {| target := target (disk st); temp := Some [] |}
+             else {| target := Some []; temp := temp (disk st) |};
+     hnd := Some {| h_loc := if writes_to_temp then AtTemp else AtTarget; pending := [] |};
+     ev := ev st |}.
+
+Definition move_loc (from to : loc) (h : option handle) : option handle :=
+  match h with
+  | Some x => match h_loc x, from with
+              | AtTemp, AtTemp => Some {| h_loc := to; pending := pending x |}
+              | AtTarget, AtTarget => Some {| h_loc := to; pending := pending x |}
+              | _, _ => h
+              end
+  | None => None
+  end.
+
+(* the interpreter of the translated protocol; returns the state and whether an exception escapes *)
+Fixpoint exec (p : prog) (chunks : list nat) (sched : list step) (fl : failure) (st : state) : state * bool :=
+  match p with
+  | PSkip => (st, false)
+  | PSeq a b =>
+      let '(st1, raised) := exec a chunks sched fl st in
+      if raised then (st1, true) else exec b chunks sched fl st1
+  | POpen body =>                                   (* with open(name, 'w') as f: body *)
+      match fl with
+      | AtOpen => (st, true)
+      | _ =>
+          let '(st1, r1) := exec body chunks sched fl (open_file st) in
+          let '(st2, r2) := close fl st1 in
+          (st2, (r1 || r2)%bool)
+      end
+  | PTry body handler =>                            (* try: body / except BaseException: handler; raise *)
+      let '(st1, raised) := exec body chunks sched fl st in
+      if raised then (fst (exec handler chunks sched fl st1), true) else (st1, false)
+  | PWrite =>                                       (* write(f): the generator's write calls *)
+      match hnd st with
+      | Some h => let '(o, raised) := write_loop chunks sched fl (opened st h) in (still_open o, raised)
+      | None => (st, true)
+      end
+  | PReplace =>                                     (* os.replace(tmp, file_name) *)
+      match fl with
+      | AtReplace => (st, true)
+      | _ =>
+          match temp (disk st) with
+          | Some c => ({| disk := {| target := Some c; temp := None |};
+                          hnd := move_loc AtTemp AtTarget (move_loc AtTarget Unlinked (hnd st)); ev := ev st |}, false)
+          | None => (st, true)
+          end
+      end
+  | PRemoveTmp =>                                   (* with suppress(OSError): os.remove(tmp) *)
+      ({| disk := {| target := target (disk st); temp := None |};
+          hnd := move_loc AtTemp Unlinked (hnd st); ev := ev st |}, false)
+  end.
+
+(* one run of an exporter; returns the file system and whether it raised *)
+Definition init (f : fs) : state := {| disk := f; hnd := None; ev := 0 |}.
+Definition run (p : prog) (f : fs) (chunks : list nat) (sched : list step) (fl : failure) : fs * bool :=
+  let '(st, raised) := exec p chunks sched fl (init f) in (disk st, raised).
+Definition export (f : fs) (chunks : list nat) (sched : list step) (fl : failure) : fs * bool :=
+  run protocol f chunks sched fl.
+
 (* gen_file: skip when the target exists and --overwrite is not given *)
-Definition gen_file (overwrite : bool) (f : fs) (chunks : list nat) (fl : failure) : fs * bool :=
+Definition gen_file (overwrite : bool) (f : fs) (chunks : list nat) (sched : list step) (fl : failure) : fs * bool :=
   if (overwrite || negb (skip_if_target_exists && match target f with Some _ => true | None => false end))%bool
-  then export f chunks fl else (f, false).
+  then export f chunks sched fl else (f, false).
 
 Definition complete (chunks : list nat) : list piece := map Chunk chunks.
+
+(* number of low-level write events of an undisturbed run (the last one is the flush in close) *)
+Fixpoint n_events_from (chunks : list nat) (sched : list step) (pend : bool) : nat :=
+  match chunks with
+  | [] => if pend then 1 else 0
+  | _ :: r =>
+      match hd Buf sched with
+      | Buf => n_events_from r (tl sched) true
+      | FlushAll => S (n_events_from r (tl sched) false)
+      | FlushKeep => S (n_events_from r (tl sched) true)
+      end
+  end.
+Definition n_events (chunks : list nat) (sched : list step) : nat := n_events_from chunks sched false.
+
+(* a concrete buffering policy: a byte buffer of capacity `cap`; a write that does not fit flushes the
+   buffer first, and is itself written through when it is larger than the buffer (io.BufferedWriter) *)
+Fixpoint sched_of_buffer (cap : nat) (sizes : list nat) (used : nat) : list step :=
+  match sizes with
+  | [] => []
+  | s :: r =>
+      if Nat.leb (used + s) cap then Buf :: sched_of_buffer cap r (used + s)
+      else if Nat.leb s cap then
+             (match used with 0 => Buf | _ => FlushKeep end) :: sched_of_buffer cap r s
+           else FlushAll :: sched_of_buffer cap r 0
+  end.
